@@ -20,33 +20,49 @@ THEOREMS = [_T + n for n in [
     "C07_holds_iff", "C07_model_holds",
     # review: optimality by certificate (any size), every valid assignment, the matrix-fill loop, geometry level
     "C07_weak_duality", "C07_cert_best", "C07_optimal_cert_iff", "C07_optimal_by_cert", "C07_holds_by_cert",
-    "C07_shape_any_valid", "C07_sortEntries_perm", "C07_matrix_is_affinity", "C07_geometries"]]
-LEVEL_TEXT = ("Lean theorems over the model of match_geometries/_select_matches (scipy's assignment a parameter under the "
-              "explicit ValidAssignment hypothesis): every source and target index occurs exactly once, pairs only with "
-              "positive affinity, reported affinity = matrix entry, unpaired report 0, empty cases; the brute-force optimum "
-              "bestValue is proved to bound every partial injection and to be attained, and the executable predicate `holds` "
-              "is proved equivalent to the property, so that its evaluation on every real output of match_geometries means "
-              "the property (optimality within 2^-40, exact on dyadic matrices).")
+    "C07_shape_any_valid", "C07_length", "C07_sortEntries_perm", "C07_matrix_is_affinity", "C07_geometries"]]
+LEVEL_TEXT = ("Lean theorems over the model of match_geometries (matrix-fill loop, _select_matches, emission; compute_affinity and "
+              "scipy's assignment are parameters, the latter under the explicit ValidAssignment hypothesis): every source and target "
+              "index occurs exactly once, pairs only with positive affinity, reported affinity = affinity of that pair of geometries, "
+              "unpaired report 0, empty cases (C07_geometries states all of it on the geometries); the brute-force optimum bestValue is "
+              "proved to bound every partial injection and to be attained; weak duality is proved, so that a checked certificate "
+              "(potentials + witness) pins the optimum for matrices of any size (C07_cert_best); the executable predicate `holds` "
+              "(brute force or certificate: C07_holds_by_cert) is proved equivalent to the property, so its evaluation on every real "
+              "output of match_geometries means the property (optimality within 2^-40, exact on dyadic matrices). For every shape "
+              "(n, m) in {0..3}^2 and every answer scipy's contract allows, match_geometries is traced on symbolic affinities and "
+              "proved equal to the model for all rational entries.")
 LEVEL_NOTE = ("Unmodelled: the Hungarian/LAPJV algorithm of scipy.optimize.linear_sum_assignment (its answer is a parameter; "
-              "ValidAssignment and optimality are checked on every answer against the verified brute force, <= 5x5 quick, "
-              "<= 7x7 thorough); compute_affinity (C06) supplies the matrix; binary64 summation inside scipy (tolerance 2^-40). "
-              "Model tied to the code by generator-bounded correspondence (real geometries and stubbed-affinity matrices, "
-              "exhaustive small scopes).")
-TECHNIQUE = ("Lean 4 proof over model with the solver as a parameter; verified brute-force optimum as run-time monitor; "
-             "exhaustive small-scope and random correspondence")
-RULE = ("lists of 0-5 (thorough 0-7) geometries on tie-rich grids, exhaustive lists over a small pool, random geometries of all "
-        "types, exhaustive / random affinity matrices through the real match_geometries with compute_affinity stubbed; "
-        "non-trivial = at least one source and one target; distinct = distinct (operation, input)")
+              "ValidAssignment and optimality are checked on every answer against the verified brute force up to 5x5 quick / 7x7 "
+              "thorough and against a Lean-checked duality certificate beyond); compute_affinity (C06) supplies the matrix; binary64 "
+              "summation inside scipy (tolerance 2^-40). Beyond the symbolic ties at fixed small shapes the model is tied to the code by "
+              "generator-bounded correspondence (real geometries, stubbed-affinity matrices, stubbed solver answers; exhaustive small "
+              "scopes). The symbolic ties replace numpy's zeros/array, float, compute_affinity and linear_sum_assignment inside the "
+              "traced module by stubs.")
+TECHNIQUE = ("Lean 4 proof over model with the solver as a parameter; verified brute-force optimum and Lean-checked LP-duality "
+             "certificates as run-time monitors; symbolic-trace equality obligations at fixed shapes; exhaustive small-scope and "
+             "random correspondence")
+RULE = ("lists of 0-5 (thorough 0-7) geometries on tie-rich grids (near-miss instants, slivers, zero-width boxes, aliased lists), "
+        "long lists up to 10 (16), exhaustive lists over a small pool, random geometries of all types, exhaustive / random affinity "
+        "matrices (up to 12x12, thorough 25x25, tiny entries) through the real match_geometries with compute_affinity stubbed, and "
+        "with the solver's answer stubbed as well; non-trivial = at least one source and one target; distinct = distinct "
+        "(operation, input)")
 TRUSTED = ["scipy.optimize.linear_sum_assignment (answer checked per case: ValidAssignment, optimal within tolerance)",
            "compute_affinity as the supplier of the matrix (property C06)",
-           "the stub replacing compute_affinity in the matrix operation (a table lookup)"]
+           "the stubs replacing compute_affinity (a table lookup) and linear_sum_assignment (a given answer) in the matrix / solver "
+           "operations, and numpy zeros/array + float in the symbolic traces (object arrays holding symbolic numbers)",
+           "nothing about the certificate generator (exact Hungarian method in the harness): Lean checks every certificate"]
 ASSUMPTIONS = ["scipy's answer is a valid assignment (monitored on every case)",
                "optimality is checked up to 2^-40 on real geometries (scipy sums binary64 values, the model exact rationals), "
-               "exactly on dyadic matrices"]
-NOT_COMPARED = ["order of the yielded matches (compared as a sorted multiset)",
+               "exactly on dyadic matrices",
+               "ordered-field semantics for the symbolic ties (no rounding)"]
+NOT_COMPARED = ["order of the yielded matches (compared as a sorted multiset; the symbolic ties compare sorted lists, "
+                "C07_sortEntries_perm)",
                 "tie-breaking among equally good assignments (an output that differs from the model's only by the "
                 "solver's choice among optimal assignments is accepted when it satisfies `holds` and equals the model "
-                "run on its own pairs)"]
+                "run on its own pairs)",
+                "behaviour when the solver's answer violates scipy's contract (repeated row, index out of range): modelled "
+                "(LoopErr), exercised, agreement only tallied",
+                "types of the yielded indices (int vs numpy integer) and the sign of a zero affinity"]
 
 TOL = Fraction(1, 2 ** 40)
 _CTX = None
@@ -446,6 +462,8 @@ def _grid_geom(rng):
     if r < 0.55:
         lo = rng.choice([0, 1000, 2000])
         h = rng.choice([1000, 1000, 2000])
+        if rng.random() < 0.04:
+            w = 0          # zero-width box: area 0, affinity 0 even with itself
         return _box(s, lo, s + w, lo + h)
     if r < 0.8:
         return _interval(s, s + w)
@@ -766,19 +784,15 @@ def _stub_selftest():
 
 
 def _solver_selftest():
+    """the two stubs must be effective; also learns whether the code hands the solver the transposed matrix"""
     seen = []
     probe = {"n": 2, "m": 2, "matrix": [["1/4", "1"], ["1/2", "1/4"]], "assigned": [[0, 0], [1, 1]], "_seen": seen}
     _ORIENT["square_transposed"] = False
-    out = _impl_solver(probe)["val"]
+    _impl_solver(probe)
     if seen and abs(float(seen[0][0][1])) == 0.5 and abs(float(seen[0][1][0])) == 1.0:
-        # the code hands the solver the transposed matrix: answer the transposed problem from now on
-        _ORIENT["square_transposed"] = True
-        out = _impl_solver(dict(probe, assigned=[[0, 1], [1, 0]]))["val"]
-        want = [[0, 1, "1"], [1, 0, "1/2"]]
-    else:
-        out = _impl_solver(dict(probe, assigned=[[0, 1], [1, 0]]))["val"]
-        want = [[0, 1, "1"], [1, 0, "1/2"]]
-    if out != want:
+        _ORIENT["square_transposed"] = True      # answer the transposed problem from now on
+    out = _impl_solver(dict(probe, assigned=[[0, 1], [1, 0]], _seen=None))["val"]
+    if out != [[0, 1, "1"], [1, 0, "1/2"]]:
         raise RuntimeError(f"stubs of compute_affinity / linear_sum_assignment are not effective (got {out})")
 
 
